@@ -91,9 +91,21 @@ def static_write_protocol():
     return out
 
 
+# round 3 (m1): replay of the static obligation `locals-assigned-before-use` = the flag-combination harness of the entry points
+REPLAYS['C15:static:biogeme.BIOGEME.calculate_likelihood_and_derivatives:locals-assigned-before-use'] = """
+import subprocess, sys, json
+r = subprocess.run([sys.executable, '/verif/bounded/m1_entrypoints.py'], capture_output=True, text=True, cwd='/tmp')
+d = json.loads(r.stdout.strip().splitlines()[-1])
+violated = bool(d['failures'])
+detail = str([(f.get('check'), f.get('case'), f.get('got')) for f in d['failures'][:3]])
+"""
+
+
 def extra(tier, seed):
     from pyvc.bounded import run_native
-    out = static_write_protocol()
+    from contracts import m1_static
+    out = static_write_protocol() + m1_static.extras('C15')
+    out.append(run_native('C15:bounded:entry-points', 'm1_entrypoints.py', [], bound='1 cross-sectional model (2 free parameters, 4 rows) x scaled x hessian x bhhh x save_iterations; wrong lengths 0/1/3 -> ValueError; batch -> BiogemeError; 1 panel model (2 individuals) whose individual map is made stale after construction; debug logging on'))
     out.append(run_native('C15:bounded:best-value-exactly-zero', 'c15_zero_best.py', [],
                           bound='3 histories on a model whose maximum log likelihood is exactly 0.0; file checked after every evaluation'))
     out.append(run_native('C15:bounded:iterations', 'c15_iterations.py', [tier, str(seed)],
